@@ -1,5 +1,6 @@
 import Crng.Tie.CodeReadAgg
 import Crng.Tie.CodeCfg
+import Crng.Gen.CodeReadSmall
 /-! C20's headline for aggregations, on code regenerated from /repo on this run: the init/admin command and the TOML section
 produce the same routing-table entry. -/
 namespace Crng.Tie.CodeAgree
@@ -63,5 +64,80 @@ theorem agg_cmd_toml_agree (E : Env) (table : TableI) (a : AggregationCfg) (fnTo
     simp only []
     rcases hG : E.aggregator_New a.Function mm a.Format a.Cache a.Interval a.Wait a.DropRaw () with ⟨agg, ae⟩
     cases ae <;> simp
+
+/-- **readAddBlack (regenerated)**: `addBlack <method> <pattern>` sets exactly the option the method names -/
+theorem readAddBlack_eq (E : Env) (table : TableI) (method pat : Bytes) (rest : List TokV) :
+    (readAddBlack E ⟨⟨Token.word, method⟩ :: ⟨Token.word, pat⟩ :: rest⟩ table) =
+      match Crng.Tie.CodeCfg.blackArgs method pat with
+      | none => ([], errFmtAddBlack, ⟨⟨Token.word, pat⟩ :: rest⟩)
+      | some (a, b, c, d, e, f) =>
+        match E.matcher_New a b c d e f with
+        | (_, some err) => ([], some err, ⟨rest⟩)
+        | (m, none) => ([Ev.call "table.AddBlacklist" table.id [arg m]], none, ⟨rest⟩) := by
+  unfold readAddBlack Crng.Tie.CodeCfg.blackArgs
+  simp only [Scanner.Next]
+  have hw : (Token.word != Token.word) = false := by decide
+  simp only [hw, Bool.false_eq_true, if_false]
+  by_cases h1 : (method == ([112, 114, 101, 102, 105, 120] : Bytes)) = true
+  · rcases hm : E.matcher_New pat [] [] [] [] [] with ⟨m, me⟩
+    cases me <;> simp [h1, hm, Lib.notNil, Res.pure, emit]
+  · by_cases h2 : (method == ([110, 111, 116, 80, 114, 101, 102, 105, 120] : Bytes)) = true
+    · rcases hm : E.matcher_New [] pat [] [] [] [] with ⟨m, me⟩
+      cases me <;> simp [h1, h2, hm, Lib.notNil, Res.pure, emit]
+    · by_cases h3 : (method == ([115, 117, 98] : Bytes)) = true
+      · rcases hm : E.matcher_New [] [] pat [] [] [] with ⟨m, me⟩
+        cases me <;> simp [h1, h2, h3, hm, Lib.notNil, Res.pure, emit]
+      · by_cases h4 : (method == ([110, 111, 116, 83, 117, 98] : Bytes)) = true
+        · rcases hm : E.matcher_New [] [] [] pat [] [] with ⟨m, me⟩
+          cases me <;> simp [h1, h2, h3, h4, hm, Lib.notNil, Res.pure, emit]
+        · by_cases h5 : (method == ([114, 101, 103, 101, 120] : Bytes)) = true
+          · rcases hm : E.matcher_New [] [] [] [] pat [] with ⟨m, me⟩
+            cases me <;> simp [h1, h2, h3, h4, h5, hm, Lib.notNil, Res.pure, emit]
+          · by_cases h6 : (method == ([110, 111, 116, 82, 101, 103, 101, 120] : Bytes)) = true
+            · rcases hm : E.matcher_New [] [] [] [] [] pat with ⟨m, me⟩
+              cases me <;> simp [h1, h2, h3, h4, h5, h6, hm, Lib.notNil, Res.pure, emit]
+            · simp [h1, h2, h3, h4, h5, h6, Res.pure]
+
+/-- **C20, blacklist: `addBlack <method> <pattern>` and the TOML entry `"<method> <pattern>"` add the same matcher** (the TOML
+string is cut at its first blank: `strings.SplitN`) -/
+theorem black_cmd_toml_agree (E : Env) (table : TableI) (method pat : Bytes) (hm : ¬ method.contains 32) :
+    (readAddBlack E ⟨[⟨Token.word, method⟩, ⟨Token.word, pat⟩]⟩ table).1 = (InitBlacklist E table ⟨[], [method ++ 32 :: pat], []⟩).1 := by
+  rw [readAddBlack_eq, Crng.Tie.CodeCfg.initBlacklist_eq]
+  have hsplit : Lib.strings_SplitN (method ++ 32 :: pat) [32] 2 = [method, pat] := by
+    have h1 : ∀ l : Bytes, ¬ l.contains 32 → (l ++ 32 :: pat).takeWhile (· != 32) = l ∧ (l ++ 32 :: pat).dropWhile (· != 32) = 32 :: pat := by
+      intro l
+      induction l with
+      | nil => intro _; simp
+      | cons c cs ih =>
+        intro h
+        have hc : c ≠ 32 := by intro hc; subst hc; simp at h
+        have hcs : ¬ cs.contains 32 := by intro h'; apply h; simp at h' ⊢; exact Or.inr h'
+        have hb : (c != 32) = true := by simp [hc]
+        simp [List.takeWhile, List.dropWhile, hb, ih hcs]
+    simp [Lib.strings_SplitN, h1 method hm]
+  simp only [Crng.Tie.CodeCfg.initResult, tryEach, Crng.Tie.CodeCfg.blackOne, hsplit]
+  have hl : ¬ (Lib.len [method, pat] < 2) := by simp [Lib.len]
+  simp only [hl, if_false, Lib.idx]
+  cases hb : Crng.Tie.CodeCfg.blackArgs method pat with
+  | none => simp [hb]
+  | some r =>
+    obtain ⟨a, b, c, d, e, f⟩ := r
+    rcases hmn : E.matcher_New a b c d e f with ⟨m, me⟩
+    cases me <;> simp [hb, hmn]
+
+/-- **readAddRewriter (regenerated)** and **C20, rewriters: `addRewriter <old> <new> <max>` and a `[[rewriter]]` section without
+`not` add the same rule** -/
+theorem rewriter_cmd_toml_agree (E : Env) (table : TableI) (old new : Bytes) (mx : TokV) (max : Int)
+    (hmt : mx.Token = Token.num ∨ mx.Token = Token.word) (hma : E.strconv_Atoi (E.strings_TrimSpace mx.Value) = (max, none)) :
+    (readAddRewriter E ⟨[⟨Token.word, old⟩, ⟨Token.word, new⟩, mx]⟩ table).1 = (InitRewrite E table ⟨[], [], [⟨old, new, [], max⟩]⟩).1 := by
+  rw [Crng.Tie.CodeCfg.initRewrite_eq]
+  have hw : (Token.word != Token.word) = false := by decide
+  have hm2 : ((mx.Token != Token.num) && (mx.Token != Token.word)) = false := by
+    rcases hmt with h | h <;> simp [h]
+  rcases hr : E.rewriter_New old new [] max with ⟨rw, re⟩
+  unfold readAddRewriter
+  simp only [Scanner.Next, hw, hm2, Bool.false_eq_true, if_false, hma, hr, Lib.notNil, Option.isSome_none]
+  simp only [Crng.Tie.CodeCfg.initResult, tryEach, Crng.Tie.CodeCfg.rwOne, hr]
+  cases re <;> simp [Res.pure, emit]
 
 end Crng.Tie.CodeAgree
